@@ -233,12 +233,12 @@ def parseX : Nat → List String → Option (XExpr × List String)
     | "sum" :: r => two .sum2 r
     | "left" :: r => two .left r
     | "iferr" :: r => two .iferror r
-    | "if2" :: r => two (fun c t => .iff c t none) r
+    | "if2" :: r => two .if2 r
     | "if3" :: r => do
       let (c, r) ← parseX fuel r
       let (t, r) ← parseX fuel r
       let (f, r) ← parseX fuel r
-      some (.iff c t (some f), r)
+      some (.if3 c t f, r)
     | "ifs" :: n :: r => do
       let n ← n.toNat?
       let rec pairs : Nat → List String → Option (List (XExpr × XExpr) × List String)
